@@ -33,7 +33,8 @@ def gen_cases(ck):
                       "scale": float(10.0 ** ck.rng.uniform(-2, 2)), "noise": float(ck.rng.choice([0.0, 0.0, 0.01, 0.05])),
                       "rhs": ["static", "velocity"][int(ck.rng.integers(3) == 0)], "dt": float(10.0 ** ck.rng.uniform(-1, 1)),
                       "method": [None, None, "lsq", "lsq_linear", "fix_stress"][int(ck.rng.integers(5))],
-                      "allow_negatives": bool(ck.rng.integers(2)), "fit": ["dlite", "taubinSVD"][int(ck.rng.integers(2))]})
+                      "allow_negatives": bool(ck.rng.integers(2)), "fit": ["dlite", "taubinSVD"][int(ck.rng.integers(2))],
+                      "angle_limit": [None, None, float(ck.rng.uniform(0.62, 0.9) * math.pi)][i % 3]})
     for i in range(10 if ck.tier == "quick" else 80):
         # square systems (one cell ringed by its neighbours: as many equations as unknowns) -> the exact-inversion path; out of
         # equilibrium, so that the exact solution has negative entries; the storage variant is chosen so that the negative
@@ -128,7 +129,10 @@ def setup(case, build_only=False):
         import forsys as fs
         sc.forsys = fs.ForSys({0: sc.frame})
         sc.keep = series
-    impl.quiet(sc.forsys.build_force_matrix, when=0, circle_fit_method=case.get("fit", "dlite"))
+    kwb = {}
+    if case.get("angle_limit") is not None:
+        kwb["angle_limit"] = case["angle_limit"]        # a restricted system: fewer unknowns than internal interfaces
+    impl.quiet(sc.forsys.build_force_matrix, when=0, circle_fit_method=case.get("fit", "dlite"), **kwb)
     sc.fm = sc.forsys.force_matrices[0]
     return sc
 
@@ -153,6 +157,9 @@ def run_case(ck, case, reqs, pending):
         kw["b_matrix"] = "velocity"
     ck.count("method_" + str(method)); ck.count("rhs_" + case["rhs"]); ck.count("allow_negatives_" + str(an))
     ck.count("square_system" if A.shape[0] == A.shape[1] else "rectangular_system")
+    if case.get("angle_limit") is not None:
+        ck.count("angle_limited_systems")
+        ck.count("angle_limited_systems_with_excluded_interfaces", int(A.shape[1] < len(sc.frame.internal_big_edges)))
     if method == "lsq_linear":
         # domain of lsq_linear: consistent systems only — decided before the call (the equations and the sum row must have an
         # exact non-negative solution without a multiplier)
@@ -178,6 +185,11 @@ def run_case(ck, case, reqs, pending):
     forces = sc.frame.forces
     x = np.array([forces[i] for i in range(len(forces))], dtype=float)
     n = A.shape[1]
+    if case.get("angle_limit") is not None and len(x) > n:
+        # interfaces excluded by the angle limit are reported as -1 at their own positions (C16); the others are the solution
+        used_set = {tuple(int(q) for q in e) for e in fm.big_edges_to_use}
+        keep = [k for k, be in enumerate(sc.frame.internal_big_edges) if tuple(int(q) for q in be.get_vertices_ids()) in used_set]
+        x = x[keep]
     # ------------------------------------------------------------------ S
     if not np.all(np.isfinite(x)):
         ck.fail("all reported values are finite", f"{x}", case)
